@@ -110,6 +110,9 @@ class EvalMixin(CallMixin):
         if kind == "const":
             cm, ce = obj
             v = self.const_value(cm, ce)
+            sc = self.opts.scale_ints
+            if sc is not None and type(v) is int and v > sc[2] and cm.name in sc[0]:
+                return sc[1]
             if isinstance(v, (dict, list, set)):
                 # a mutable module-level object: one shared instance per run (writes must persist)
                 key = repo.canon(target)
@@ -273,6 +276,10 @@ class EvalMixin(CallMixin):
         return _ref(*self.load_name_ref(node.id, fr, node))
 
     def ex_Constant(self, node, fr):
+        sc = self.opts.scale_ints
+        if sc is not None and type(node.value) is int and node.value > sc[2] and fr.fi.module.name in sc[0]:
+            # scaled-threshold exploration (see Options.scale_ints)
+            return sc[1]
         return node.value
 
     # ------------------------------------------------------------- attribute
@@ -319,6 +326,10 @@ class EvalMixin(CallMixin):
                         return (v if v is not NotImplemented else Sym(key)), Sym(key)
             if attr == "__name__":
                 return base.qual.rsplit(".", 1)[-1], None
+            if attr in ("__mro__", "__bases__") and base.qual in repo.classes:
+                mro = [q for q in repo.class_mro(base.qual)]
+                refs = tuple(ClassRef(q) for q in mro) + (ClassRef("builtins.object"),)
+                return (refs if attr == "__mro__" else tuple(ClassRef(b) for b in mro[1:2]) or (ClassRef("builtins.object"),)), None
             return Sym(f"{base.qual}.{attr}"), Sym(f"{base.qual}.{attr}")
         if isinstance(base, EnumVal):
             if attr == "name":
